@@ -21,7 +21,12 @@ def _alarm(signum, frame):
 
 def main():
     prop, inp, out, case_timeout = sys.argv[1], sys.argv[2], sys.argv[3], float(sys.argv[4])
-    logging.disable(logging.CRITICAL)
+    # logging as in an application that configured nothing: the library's records are still formatted at WARNING and above
+    # (repid formats its templates in a LoggerAdapter before any handler sees them); every second case runs at DEBUG, as a
+    # user who switched debug logging on would. Output itself is discarded.
+    logging.lastResort = logging.NullHandler()
+    for noisy in ("asyncio", "aiormq", "pamqp", "redis"):
+        logging.getLogger(noisy).addHandler(logging.NullHandler())
     warnings.simplefilter("ignore", DeprecationWarning)
     mod = importlib.import_module(f"rv.checks.{prop}")
     with open(inp) as f:
@@ -29,6 +34,7 @@ def main():
     signal.signal(signal.SIGALRM, _alarm)
     with open(out, "w") as fo:
         for case in cases:
+            logging.getLogger("repid").setLevel(logging.DEBUG if case.get("cid", 0) % 2 else logging.NOTSET)
             t0 = time.perf_counter()
             caught = []
 
